@@ -3,7 +3,7 @@
 //! `Hand.step` (Hand/AlignedBufferState.lean).
 //!
 //! `abufs <size_of T> <op>;<op>;…` with
-//!   `z:<len>` zeroed, `w:<k>:<i>:<bytes>` as_mut_slice()[i] = v, `r:<k>:<i>` as_slice()[i] (odd steps through Deref),
+//!   `z:<len>` zeroed, `w:<k>:<i>:<bytes>` as_mut_slice()[i] = v, `p:<k>:<i>:<bytes>` as_mut_ptr().add(i).write(v), `r:<k>:<i>` as_slice()[i] (odd steps through Deref),
 //!   `c:<k>` clone, `f:<d>:<s>` clone_from, `s:<k>:<bytes>` copy_from_slice, `i:<k>` len / allocated_size, `d:<k>` dump
 //! and the answers `n<len>,<alloc>`, `u`, `e<bytes>`, `v<bytes>`, `p` (panic), `b` (not an operation).
 
@@ -102,8 +102,15 @@ fn gen_ops(rng: &mut Rng, size: usize, n_ops: usize) -> Vec<String> {
             },
             2..=5 => {
                 let k = slot(rng, &lens);
-                let i = index(rng, lens.get(k).copied().unwrap_or(3));
-                ops.push(format!("w:{k:x}:{i:x}:{}", hex(&rand_bytes(rng, size))));
+                let l = lens.get(k).copied().unwrap_or(3);
+                if rng.below(3) == 0 && l > 0 && k < lens.len() {
+                    // the same write through the raw pointer (`as_mut_ptr().add(i).write(v)`), in-range indices only
+                    let i = rng.usize_below(l);
+                    ops.push(format!("p:{k:x}:{i:x}:{}", hex(&rand_bytes(rng, size))));
+                } else {
+                    let i = index(rng, l);
+                    ops.push(format!("w:{k:x}:{i:x}:{}", hex(&rand_bytes(rng, size))));
+                }
             },
             6..=8 => {
                 let k = slot(rng, &lens);
@@ -188,6 +195,19 @@ fn exec_ops<T: Copy>(ops: &[String]) -> Vec<String> {
                             Err(_) => "p".into(),
                         }
                     },
+                },
+                _ => "b".into(),
+            },
+            ["p", k, i, v] => match (num(k), num(i), unhex(v)) {
+                (Some(k), Some(i), Some(v)) if v.len() == size => match heap.get_mut(k) {
+                    None => "b".into(),
+                    Some(b) if i < b.as_slice().len() => {
+                        let x: T = from_bytes(&v);
+                        unsafe { b.as_mut_ptr().add(i).write(x) };
+                        "u".into()
+                    },
+                    // out of range: a raw write there would be undefined behaviour of the *caller*; not performed
+                    Some(_) => "p".into(),
                 },
                 _ => "b".into(),
             },
